@@ -3,7 +3,10 @@
 package referenceclient
 
 import (
+	"bytes"
 	"context"
+	"errors"
+	"io"
 	"net/http"
 	"net/url"
 	"strconv"
@@ -42,6 +45,7 @@ type verifC16Call struct {
 	completed bool
 	bare      bool
 	busy      bool
+	resp      *http.Response // rt mode: the response the caller got from the traced transport
 	began     time.Time
 	res       chan string
 }
@@ -59,6 +63,7 @@ type verifC16Call struct {
 // (a 25 ms deadline running from the start of the script) | bare (no withWireCapture).
 type VerifC16Wire struct {
 	calls  []*verifC16Call
+	rt     bool
 	inner  *tracer.Tracer
 	wt     *wireTracer
 	Settle time.Duration
@@ -107,6 +112,76 @@ func VerifC16NewWire(flavours []string, withTracer bool) *VerifC16Wire {
 		v.calls = append(v.calls, c)
 	}
 	return v
+}
+
+type verifC16RT func(*http.Request) (*http.Response, error)
+
+func (f verifC16RT) RoundTrip(r *http.Request) (*http.Response, error) { return f(r) }
+
+// VerifC16NewWireRT is the same hand-off reached through the real client-side glue:
+// newWireCaptureTransport -> tracer.TracingRoundTripper -> builder -> wireTracer.Complete ->
+// setWireTrace. Every call makes its round trip (over a transport that answers at once with
+// status 200+k, or fails: flavour "fail") when the script starts; "c:k" then reads the response
+// body to its end (which completes the trace), "x:k" cancels the call's context (the
+// middleware's goroutine then completes the trace, unless it is complete already; the step
+// returns when that has happened). Flavours: live | fail | bare.
+func VerifC16NewWireRT(flavours []string, withTracer bool) *VerifC16Wire {
+	fl := make([]string, len(flavours))
+	for i, f := range flavours {
+		fl[i] = "live"
+		if f == "bare" {
+			fl[i] = "bare"
+		}
+	}
+	v := VerifC16NewWire(fl, withTracer)
+	v.rt = true
+	transport := newWireCaptureTransport(verifC16RT(func(r *http.Request) (*http.Response, error) {
+		if r.Header.Get("X-Verif-Fail") != "" {
+			return nil, errors.New("verif: scripted transport failure")
+		}
+		id, _ := strconv.Atoi(r.Header.Get("X-Verif-Id"))
+		return &http.Response{
+			Status: "200 OK", StatusCode: 200 + id, Proto: "HTTP/1.1", ProtoMajor: 1, ProtoMinor: 1,
+			Header: http.Header{}, Body: io.NopCloser(bytes.NewReader([]byte("abc"))), ContentLength: -1, Request: r,
+		}, nil
+	}), v.inner)
+	for k, c := range v.calls {
+		c.req.Header.Set("X-Verif-Id", strconv.Itoa(k))
+		c.req.Body = http.NoBody
+		if flavours[k] == "fail" {
+			c.req.Header.Set("X-Verif-Fail", "1")
+		}
+		resp, err := transport.RoundTrip(c.req) //nolint:bodyclose // read to its end by the script, or abandoned on purpose
+		if err != nil {
+			c.completed = true // the ResponseError event completed the trace
+		}
+		c.resp = resp
+	}
+	return v
+}
+
+// awaitCompletion waits until the trace of the call has been handed over (rt mode, after a
+// cancellation: the hand-off comes from the middleware's goroutine).
+func (v *VerifC16Wire) awaitCompletion(c *verifC16Call) {
+	waited := false
+	if w, ok := c.ctx.Value(wireCtxKey{}).(*wireWrapper); ok {
+		select {
+		case <-w.traceAvailable:
+		case <-time.After(5 * time.Second):
+		}
+		waited = true
+	}
+	// wireTracer.Complete hands the trace to the Tracer behind it after setWireTrace, on the
+	// middleware's goroutine: wait for that as well before anything is observed
+	if v.inner != nil {
+		ctx, cancel := context.WithTimeout(context.Background(), 5*time.Second)
+		defer cancel()
+		_, _ = v.inner.Await(ctx, c.name)
+		waited = true
+	}
+	if !waited {
+		time.Sleep(20 * time.Millisecond)
+	}
 }
 
 func verifC16Examine(ctx context.Context) string {
@@ -185,9 +260,24 @@ func (v *VerifC16Wire) Do(op string) string {
 		v.pendingCheck(c, true)
 		return r
 	case "x":
+		pending := c.busy && !c.completed
 		c.cancel()
+		if v.rt && !c.completed {
+			v.awaitCompletion(c)
+			v.pendingCheck(c, pending)
+			c.completed = true
+		}
 		return ""
 	case "c":
+		if v.rt {
+			pending := c.busy && !c.completed
+			if c.resp != nil {
+				_, _ = io.Copy(io.Discard, c.resp.Body)
+			}
+			v.pendingCheck(c, pending)
+			c.completed = true
+			return ""
+		}
 		id := 0
 		if len(f) > 2 {
 			id, _ = strconv.Atoi(f[2])
